@@ -44,28 +44,28 @@ type Effect struct {
 	Pos  token.Pos
 	Text string
 	// for Kind == call: callee name
-	Callee string
+	Callee  string
 	RootVar *types.Var
 	Stmt    ast.Node
 }
 
 type MapRange struct {
-	Pkg      *packages.Package
-	Fn       *ast.FuncDecl
-	FnName   string
-	Stmt     *ast.RangeStmt
-	X        string
-	IsMap    bool // false: range over an order-tainted slice
-	Effects  []Effect
-	Class    string // insensitive | sanitised | escapes | reviewed
-	Findings []string
-	FindingKeys []string // parallel to Findings: a line-free key of what escapes
-	Sanitised []string
-	mapReads  []mapRead
-	callStores []mapRead
+	Pkg          *packages.Package
+	Fn           *ast.FuncDecl
+	FnName       string
+	Stmt         *ast.RangeStmt
+	X            string
+	IsMap        bool // false: range over an order-tainted slice
+	Effects      []Effect
+	Class        string // insensitive | sanitised | escapes | reviewed
+	Findings     []string
+	FindingKeys  []string // parallel to Findings: a line-free key of what escapes
+	Sanitised    []string
+	mapReads     []mapRead
+	callStores   []mapRead
 	directStores []mapRead
-	Returned  []string // locals filled in map order and only returned (decided at call sites)
-	Escaping  []EscLoc // parameter/receiver/global rooted locations left unsorted by this function
+	Returned     []string // locals filled in map order and only returned (decided at call sites)
+	Escaping     []EscLoc // parameter/receiver/global rooted locations left unsorted by this function
 }
 
 type mapRead struct {
@@ -102,13 +102,13 @@ type fnSummary struct {
 	pkg  *packages.Package
 	obj  *types.Func
 	// appends to a location rooted at parameter i (-1 receiver), with the field path
-	appendsParam map[string]bool // "idx:path"
+	appendsParam  map[string]bool // "idx:path"
 	appendsGlobal map[string]bool
-	storesMap    map[string]bool // "idx:path": inserts into a map rooted at parameter idx
-	writesParam  map[int]bool // writes to a writer/builder parameter
-	writesOutput bool         // writes to stdout / files
-	retTainted   bool         // returns a slice filled in map order (unsorted)
-	retContent   bool         // returns a scalar whose content depends on map order
+	storesMap     map[string]bool // "idx:path": inserts into a map rooted at parameter idx
+	writesParam   map[int]bool    // writes to a writer/builder parameter
+	writesOutput  bool            // writes to stdout / files
+	retTainted    bool            // returns a slice filled in map order (unsorted)
+	retContent    bool            // returns a scalar whose content depends on map order
 }
 
 type OrderAnalysis struct {
@@ -118,8 +118,8 @@ type OrderAnalysis struct {
 	Ranges  []*MapRange
 	// RetTainted lists functions whose result is order-tainted (evidence).
 	RetTainted []string
-	CallSites []CallSiteTaint
-	ctx       map[*fnSummary]*fnCtx
+	CallSites  []CallSiteTaint
+	ctx        map[*fnSummary]*fnCtx
 	// LogIsOutput: treat log.* calls as output (false: diagnostics on stderr are not part of
 	// the property's outputs).
 	LogIsOutput bool
@@ -1355,7 +1355,6 @@ func dependsOnIterLocal(info *types.Info, fd *ast.FuncDecl, loop *ast.RangeStmt,
 	return found
 }
 
-
 // fnCtx caches the parent chains and sort calls of a function.
 type fnCtx struct {
 	parents map[ast.Node][]ast.Node
@@ -1501,7 +1500,6 @@ func PathOf(loc string) string {
 	}
 	return ""
 }
-
 
 func addF(m *MapRange, key, text string) {
 	m.Findings = append(m.Findings, text)
